@@ -46,11 +46,15 @@ func (x *Exec) goStmt(fr *frame, i *ssa.Go, st *State, r string) {
 	for _, a := range i.Call.Args {
 		args = append(args, x.val(fr, a))
 	}
+	cs := &CallSite{Instr: i, Fn: fr.fn, Depth: fr.depth, Callee: name, Reach: r, Args: args, ArgVals: i.Call.Args, IsGo: true, Pos: i.Pos(), StBefore: st.clone()}
+	cs.Class = "spawn"
 	if x.trace != nil {
-		cs := &CallSite{Instr: i, Fn: fr.fn, Depth: fr.depth, Callee: name, Reach: r, Args: args, ArgVals: i.Call.Args, IsGo: true, Pos: i.Pos(), StBefore: st.clone()}
-		cs.Class = "spawn"
 		x.trace.add(cs)
 	}
+	if fr.top && fr.c != nil {
+		x.siteAsserts(fr, cs, st, r)
+	}
+	cs.Mark = x.vc.S.mark()
 	st.Ghost["effects"] = x.vc.S.def("g_effects", ic(add(ghost(st, "effects"), "1"))).T
 }
 
@@ -408,9 +412,15 @@ func (x *Exec) callContract(fr *frame, cs *CallSite, fn *ssa.Function, ct *Contr
 		keep = and(keep, not(or(mods...)))
 	}
 	var base string
-	if len(ct.Modifies) == 0 {
+	pure := len(ct.Modifies) == 1 && ct.Modifies[0].Text == "nothing"
+	switch {
+	case pure:
 		base = x.vc.havocFrame(st, before.Alloc)
-	} else {
+	case len(ct.Modifies) == 0:
+		// no frame given: everything may have changed
+		base = x.vc.havocMem(st, "false")
+		x.vc.havocMaps(st)
+	default:
 		base = x.vc.havocMem(st, keep)
 	}
 	if _, ok := ct.Raw["modifies_maps"]; ok {
